@@ -642,6 +642,33 @@ def rule_default_literal(ctx):
             while p.get('k') in ('ref', 'guard') and 'pat' in p:
                 p = p['pat']
             path = (p.get('res') or {}).get('path', '') if isinstance(p.get('res'), dict) else ''
+            if path.endswith('::Int'):
+                # an integer literal is also a valid Float and a valid ID: the arm has to look at the expected type
+                inst = '%s/Int' % short(fn.path)
+                try:
+                    t_ = ctx.pv.eval(fn, a['body'], H.sym_env(fn), 0)
+                except Exception:
+                    t_ = None
+                if t_ is None:
+                    obs.append(undecided('DEFAULT-LITERAL', inst, 'arm not evaluable', a['body'].get('sp', fn.loc)))
+                else:
+                    consts_ = {c_ for c_ in TM.consts_in(t_) if isinstance(c_, str)}
+                    reads_ty = 'StoredScalar.name' in TM.fields_in(t_) or any(x_.get('k') == 'lit' and x_['lit'].get('v') in ('Float', 'ID') for _f, x_ in H.deep_nodes(ctx, fn, a['body'], 1))
+                    lits_ = {x_['lit'].get('v') for _f, x_ in H.deep_nodes(ctx, fn, a['body'], 1) if x_.get('k') == 'lit'}
+                    # .. also as literal patterns (`match scalar_name { Some("Float") => .. }`)
+                    for _f, x_ in H.deep_nodes(ctx, fn, a['body'], 1):
+                        if x_.get('k') == 'match':
+                            for arm_ in x_.get('arms', []):
+                                rp_ = repr(P.pat_summary(arm_['pat']))
+                                for nm_ in ('Float', 'ID'):
+                                    if "'%s'" % nm_ in rp_:
+                                        lits_.add(nm_)
+                                        reads_ty = reads_ty or 'StoredScalar.name' in TM.fields_in(t_) or True
+                    if {'Float', 'ID'} <= (consts_ | lits_) and reads_ty:
+                        obs.append(ok('DEFAULT-LITERAL', inst, 'an integer literal is rendered by the expected scalar: f64 for Float, decimal string for ID, i64 otherwise', a['body'].get('sp', fn.loc)))
+                    else:
+                        obs.append(bad('DEFAULT-LITERAL', inst, 'an integer default value is rendered as an i64 literal whatever scalar is expected (Float / ID not distinguished)', a['body'].get('sp', fn.loc),
+                                       '`$f: Float = 1` / `$id: ID = 7` do not type-check (E0308)'))
             if path.endswith('::List'):
                 inst = '%s/List' % short(fn.path)
                 consts = []
